@@ -112,3 +112,59 @@ def closure_return_tree(prog, clos):
     """Expression tree of the value a closure returns (its _0), with arg2.. as the closure parameters."""
     pv = df.Prov(clos)
     return pv.local_tree(0), pv
+
+
+FRESH_FIELDS = {"packet_buffer", "lifecycle"}
+
+
+def check_lifecycle_transfer(rep, prog, rid, fields=None, check_pending=True):
+    """Port<Running> <-> Port<InBmca> (start_bmca / end_bmca) rebuild the Port field by field: every field other than
+    the scratch packet buffer and the lifecycle marker must be moved from the SAME-NAMED field of self, and end_bmca
+    must hand out self.lifecycle.pending_action. (All per-port protocol state - port state, sequence generators,
+    filter, delay state - crosses every BMCA run through these two functions.)"""
+    from sa import dataflow as df
+    from sa.facts import AnchorMissing
+    n = 0
+    for fn in ("start_bmca", "end_bmca"):
+        try:
+            b = prog.one(name=fn, self_name="Port", crate="statime-lib")
+        except AnchorMissing as e:
+            rep.anchor_missing(rid, str(e))
+            continue
+        t = df.strip(df.Prov(b).local_tree(0))
+        port = t
+        extra_ok = True
+        if fn == "end_bmca":
+            if t[0] == "agg" and t[1] == "tuple" and len(t[3]) == 2:
+                port = df.strip(t[3][0][1])
+                pa = df.canon(t[3][1][1], b)
+                if check_pending and pa != "self.lifecycle.pending_action":
+                    extra_ok = False
+                    rep.violation(rid, b.key, "pending_action", "end_bmca returns `%s` as the pending actions instead of "
+                                  "self.lifecycle.pending_action: timer requests recorded during the BMCA are lost" % pa,
+                                  where=b.loc())
+            else:
+                rep.violation(rid, b.key, "result", "end_bmca no longer returns (Port, pending actions): %s" %
+                              df.canon(t, b)[:120], where=b.loc())
+                continue
+        if not (port[0] == "agg" and port[1] == "Port"):
+            rep.violation(rid, b.key, "result", "the new Port is not built by a struct expression the rule can read: %s"
+                          % df.canon(port, b)[:120], where=b.loc())
+            continue
+        bad = []
+        moved = 0
+        for (f, sub) in port[3]:
+            c = df.canon(sub, b)
+            if f in FRESH_FIELDS or (fields is not None and f not in fields):
+                continue
+            if c == "self." + f:
+                moved += 1
+            else:
+                bad.append("%s <- %s" % (f, c))
+        if bad:
+            rep.violation(rid, b.key, "field transfer", "%s does not carry per-port state over unchanged: %s (each field must "
+                          "come from the same-named field of the consumed port)" % (fn, "; ".join(bad)), where=b.loc())
+        elif extra_ok:
+            n += 1
+            rep.ok(rid, b.key, "field transfer", detail={"fields_moved_same_name": moved}, where=b.loc())
+    return n
